@@ -128,14 +128,12 @@ func c12Quiet() bool {
 		if i := strings.IndexAny(st, ",]"); i >= 0 {
 			st = st[:i]
 		}
-		waiting := false
-		for _, w := range []string{"chan ", "select", "sleep", "Mutex", "semacquire", "sync.", "IO wait"} {
-			if strings.Contains(st, w) {
-				waiting = true
+		// anything but a wait reason (chan receive, select, sleep, sync.Mutex.Lock,
+		// sync.WaitGroup.Wait, synctest.Run, ...) means the goroutine can still move
+		for _, w := range []string{"running", "runnable", "syscall", "preempted", "copystack", "GC", "waiting", "idle"} {
+			if strings.HasPrefix(st, w) || strings.Contains(st, "GC ") {
+				return false
 			}
-		}
-		if !waiting {
-			return false
 		}
 	}
 	return true
@@ -168,6 +166,11 @@ func (c *c12Sim) settle(s *vSim) bool {
 				quiet = 0
 			}
 			if c12RealNow()-start > 5_000_000 {
+				if os.Getenv("VERIF_C12_DEBUG") != "" {
+					buf := make([]byte, 1<<20)
+					n := runtime.Stack(buf, true)
+					os.WriteFile(os.Getenv("VERIF_C12_DEBUG"), buf[:n], 0o644)
+				}
 				return false
 			}
 		}
